@@ -403,7 +403,7 @@ prop("C17", kind="bom", modules=["SasLexer.Properties.C17"],
      variants=["dev", "rel", "rel-sep"])
 prop("C16", kind="case", modules=["SasLexer.Properties.C16"], theorems=["SasLexer.C16_tables", "SasLexer.C16_keyword_lookup"],
      variants=["dev", "rel", "rel-sep"])
-prop("C18", kind="sep", modules=["SasLexer.Properties.C18"], theorems=["SasLexer.C18_placement", "SasLexer.needsMacroSep_table"],
+prop("C18", kind="sep", modules=["SasLexer.Properties.C18"], theorems=["SasLexer.C18_placement", "SasLexer.needsMacroSep_table", "SasLexer.C18_no_sep_without_feature", "SasLexer.C18_sep_shape", "SasLexer.ChanR_sound"],
      variants=["rel", "dev"])
 prop("C19", kind="profile", modules=["SasLexer.Properties.C19"], theorems=["SasLexer.kernel_C19_debug_release", "SasLexer.kernel_C19_nightly", "SasLexer.run_profile"],
      variants=["dev", "rel", "dev-sep", "rel-sep"])
@@ -418,7 +418,7 @@ prop("C01", kind="total", modules=["SasLexer.Properties.C01"],
      theorems=["SasLexer.kernel_C01_offsets_in_range", "SasLexer.kernel_C01_release_panics", "SasLexer.evalFlags_roundtrip"],
      variants=["dev", "rel", "rel-sep", "dev-sep"], corr_outcomes=True)
 prop("C06", modules=["SasLexer.Properties.C06"], theorems=["SasLexer.C06_table_total", "SasLexer.C06_keyword_rows",
-                                                            "SasLexer.C06_model_channels", "SasLexer.C06_model_tables", "SasLexer.model_payload_kinds", "SasLexer.model_channels", "SasLexer.ChanR_sound", "SasLexer.mainLoop_chan", "SasLexer.finalizeLexing_chan"],
+                                                            "SasLexer.C06_model_channels", "SasLexer.C06_model_tables", "SasLexer.model_payload_kinds", "SasLexer.model_no_sep_without_feature", "SasLexer.model_channels", "SasLexer.ChanR_sound", "SasLexer.mainLoop_chan", "SasLexer.finalizeLexing_chan"],
      variants=["rel", "dev-sep", "dev"])
 prop("C07", modules=["SasLexer.Properties.C07", "SasLexer.Properties.C06"], theorems=["SasLexer.C07_hex_decode_spec", "SasLexer.hexPairs_eq_spec", "SasLexer.model_payload_kinds", "SasLexer.ChanR_sound"],
      variants=["rel", "dev-sep", "dev"])
